@@ -275,9 +275,22 @@ def owners(div):
                    "write": {"C17", "C02"}, "start": {"C17", "C04"}, "drain": {"C16"}, "run": {"C16"}}.get(fn, {"C14"}))
         if fn in ("stop", "wait", "destroy") and kind == "hang":
             own |= {"C01"}
+        if fn == "wait" and kind == "early" and obs.get("r") == ETIMEDOUT:
+            own |= {"C09", "C01"}   # "timed out" although the exit handle hung up (an exit event would have been / was reported)
         return own
     if div.get("conc") or (isinstance(div.get("call"), dict) and div["call"].get("e") == "conc"):
-        return {"C20"} | ({"C11"} if "kids" in (div.get("keys") or []) else set()) | ({"C12"} if "tmasks" in (div.get("keys") or []) else set())
+        own = {"C20"} | ({"C12"} if "tmasks" in (div.get("keys") or []) else set()) | ({"C03"} if "penv" in (div.get("keys") or []) else set())
+        if "kids" in (div.get("keys") or []):
+            # which field of which child differs: wiring / extra descriptors / stdin writers are C11's, the environment C03's
+            ek = (div.get("exp") or {}).get("kids") or []
+            ok_ = (div.get("obs") or {}).get("kids") or []
+            fields = set()
+            for i in range(max(len(ek), len(ok_))):
+                a = ek[i] if i < len(ek) else {}
+                b = ok_[i] if i < len(ok_) else {}
+                fields |= {k for k in set(a) | set(b) if a.get(k) != b.get(k)}
+            own |= ({"C03"} if "cenv" in fields else set()) | ({"C11"} if (fields - {"cenv"}) or not fields else set())
+        return own
     if fn in ("start", "fork", "clone_start", "method", "consts") and isinstance(div.get("call"), dict) and "op" in div.get("call"):
         return {"C19"}
     keys = div.get("keys") or [div.get("key", "")]
@@ -1282,7 +1295,7 @@ PROPS = {
     "C01": {"families": ["status", "realstatus", "stop", "two", "free"], "title": "exit status exact, stable, reaped once"},
     "C06": {"families": ["stop", "faults", "two"], "title": "only the own unreaped child is signalled or waited for"},
     "C07": {"families": ["stop", "free"], "title": "stop sequences"},
-    "C03": {"families": ["env", "env2", "real"], "title": "launch fidelity: argv, environment, working directory, program resolution"},
+    "C03": {"families": ["env", "env2", "conc", "real"], "title": "launch fidelity: argv, environment, working directory, program resolution"},
     "C12": {"families": ["env", "env2", "faults", "conc", "threads", "real"], "title": "start leaves the caller untouched and gives the child a clean signal state"},
     "C10": {"families": ["wiring", "restart", "real"], "title": "each standard stream is connected exactly where the options say"},
     "C11": {"families": ["wiring", "env2", "conc", "real"], "title": "nothing else is inherited"},
